@@ -1084,7 +1084,7 @@ class Pregex():
         if _re.search(_re.sub(r"\s", "", r"""
             (?<!\\)(?:\\\\)*(?<!\()(?:\?|\*|\+|\{,\d+\}|\{\d+,\}|\{\d+,\d+\})|
             (?<!\\)(?:\\\\)*\\\((?:\?|\*|\+|\{,\d+\}|\{\d+,\}|\{\d+,\d+\})
-        """), str(pre)) is not None:
+        """), __class__.__remove_classes(str(pre))) is not None:
             raise _ex.NonFixedWidthPatternException(pre)
         return __class__(
             f"(?<={pre}){self._assert_conditional_group()}",
@@ -1115,7 +1115,7 @@ class Pregex():
         if _re.search(_re.sub(r"\s", "", r"""
             (?<!\\)(?:\\\\)*(?<!\()(?:\?|\*|\+|\{,\d+\}|\{\d+,\}|\{\d+,\d+\})|
             (?<!\\)(?:\\\\)*\\\((?:\?|\*|\+|\{,\d+\}|\{\d+,\}|\{\d+,\d+\})
-        """), str(pre)) is not None:
+        """), __class__.__remove_classes(str(pre))) is not None:
             raise _ex.NonFixedWidthPatternException(pre)
         return __class__(
             f"(?<={pre}){self._assert_conditional_group()}(?={pre})",
@@ -1165,7 +1165,7 @@ class Pregex():
         if _re.search(_re.sub(r"\s", "", r"""
             (?<!\\)(?:\\\\)*(?<!\()(?:\?|\*|\+|\{,\d+\}|\{\d+,\}|\{\d+,\d+\})|
             (?<!\\)(?:\\\\)*\\\((?:\?|\*|\+|\{,\d+\}|\{\d+,\}|\{\d+,\d+\})
-        """), str(pre)) is not None:
+        """), __class__.__remove_classes(str(pre))) is not None:
             raise _ex.NonFixedWidthPatternException(pre)
         pattern = f"(?<!{pre}){self._assert_conditional_group()}"
         return __class__(pattern, escape=False)
@@ -1194,7 +1194,7 @@ class Pregex():
         if _re.search(_re.sub(r"\s", "", r"""
             (?<!\\)(?:\\\\)*(?<!\()(?:\?|\*|\+|\{,\d+\}|\{\d+,\}|\{\d+,\d+\})|
             (?<!\\)(?:\\\\)*\\\((?:\?|\*|\+|\{,\d+\}|\{\d+,\}|\{\d+,\d+\})
-        """), str(pre)) is not None:
+        """), __class__.__remove_classes(str(pre))) is not None:
             raise _ex.NonFixedWidthPatternException(pre)
         pattern = f"(?<!{pre}){self._assert_conditional_group()}(?!{pre})"
         return __class__(pattern, escape=False)
@@ -1398,6 +1398,19 @@ class Pregex():
             source = self.__extract_text(source)
         return _re.finditer(self.__pattern, source, flags=self.__flags) \
             if self.__compiled is None else self.__compiled.finditer(source)
+
+
+    @staticmethod
+    def __remove_classes(pattern: str) -> str:
+        '''
+        Replaces escaped backslashes as well as every character class within the \
+        provided pattern with a simple character, so that the characters listed \
+        within a class are not mistaken for quantifiers.
+
+        :param str pattern: The RegEx pattern that is to be simplified.
+        '''
+        pattern = _re.sub(r"\\{2}", "a", pattern)
+        return _re.sub(r"(?<!\\)\[.+?(?<!\\)\]", "a", pattern, flags=__class__.__flags)
 
 
     @staticmethod
